@@ -523,7 +523,7 @@ impl Prop for C03 {
         false
     }
     fn n_cases(&self, tier: Tier) -> u64 {
-        tier.pick(12_000, 600_000)
+        tier.pick(120_000, 600_000)
     }
     fn time_cap_s(&self, tier: Tier) -> u64 {
         tier.pick(100, 1200)
